@@ -344,7 +344,8 @@ func (iv Interval) String() string {
 // (allocation, nil result, error ...); "" continues. The result maps each
 // label to the normalised union of intervals that reach it. imprecise is set
 // when a branch mentions the tracked value in a form that is not understood.
-func Outcomes(g *cfgq.Graph, from cfgq.Point, isX func(ast.Expr) bool, mentions func(ast.Node) bool, classify func(n ast.Node) string) (out map[string][]Interval, imprecise bool) {
+// Edges accepted by cut (error edges of earlier calls) are not followed.
+func Outcomes(g *cfgq.Graph, from cfgq.Point, isX func(ast.Expr) bool, mentions func(ast.Node) bool, classify func(n ast.Node) string, cut func(*cfg.Block, int) bool) (out map[string][]Interval, imprecise bool) {
 	raw := map[string][]Interval{}
 	type key struct {
 		b      *cfg.Block
@@ -366,6 +367,9 @@ func Outcomes(g *cfgq.Graph, from cfgq.Point, isX func(ast.Expr) bool, mentions 
 			return
 		}
 		for si, t := range b.Succs {
+			if cut != nil && cut(b, si) {
+				continue
+			}
 			ivs := []Interval{iv}
 			for _, f := range EdgeFacts(g, b, si) {
 				op, k, ok := Cmp(g.Info, f, isX)
@@ -547,4 +551,76 @@ func IsBuiltin(info *types.Info, call *ast.CallExpr, name string) bool {
 func MethodOn(call *ast.CallExpr, name string, isRecv func(ast.Expr) bool) bool {
 	sel, ok := ast.Unparen(call.Fun).(*ast.SelectorExpr)
 	return ok && sel.Sel.Name == name && isRecv(sel.X)
+}
+
+// ---------------------------------------------------------------------------
+// single-definition locals
+
+// Resolve replaces an identifier that names a local variable with exactly one
+// 1:1 definition in body by the defining expression (repeatedly, depth <= 3),
+// provided the variables that expression mentions are never re-assigned
+// themselves; anything else is returned unchanged. It makes the rules
+// indifferent to "extract expression into a local".
+func Resolve(info *types.Info, body ast.Node, e ast.Expr) ast.Expr {
+	for depth := 0; depth < 3; depth++ {
+		id, ok := ast.Unparen(e).(*ast.Ident)
+		if !ok {
+			return e
+		}
+		obj, _ := core.ObjOf(info, id).(*types.Var)
+		if obj == nil || obj.IsField() || !(body.Pos() <= obj.Pos() && obj.Pos() < body.End()) || Assignments(info, body, obj) != 1 {
+			return e
+		}
+		var rhs ast.Expr
+		core.InspectAll(body, func(m ast.Node) bool {
+			switch s := m.(type) {
+			case *ast.AssignStmt:
+				if len(s.Lhs) == len(s.Rhs) {
+					for i, l := range s.Lhs {
+						if IsObj(info, obj)(l) && (s.Tok == token.DEFINE || s.Tok == token.ASSIGN) {
+							rhs = s.Rhs[i]
+						}
+					}
+				}
+			case *ast.ValueSpec:
+				if len(s.Names) == len(s.Values) {
+					for i, n := range s.Names {
+						if info.Defs[n] == types.Object(obj) {
+							rhs = s.Values[i]
+						}
+					}
+				}
+			}
+			return true
+		})
+		if rhs == nil || !stable(info, body, rhs) {
+			return e
+		}
+		e = rhs
+	}
+	return e
+}
+
+// stable: every variable mentioned by e is assigned at most at its definition.
+func stable(info *types.Info, body ast.Node, e ast.Expr) bool {
+	ok := true
+	core.InspectAll(e, func(m ast.Node) bool {
+		id, isID := m.(*ast.Ident)
+		if !isID {
+			return true
+		}
+		v, isVar := info.Uses[id].(*types.Var)
+		if !isVar || v.IsField() || v.Pkg() == nil || v.Parent() == v.Pkg().Scope() {
+			return true
+		}
+		limit := 0
+		if body.Pos() <= v.Pos() && v.Pos() < body.End() {
+			limit = 1
+		}
+		if Assignments(info, body, v) > limit {
+			ok = false
+		}
+		return ok
+	})
+	return ok
 }
